@@ -269,6 +269,11 @@ def run(ctx):
         (1.0, 1.0, 1.0, None, True), (0.0, 5.0, 0.0, None, False), (0.0, 5.0, -1.0, None, False),
         (0.0, 5.0, 1.0, 0.0, False), (0.0, 5.0, 1.0, -0.5, True), (0.0, 0.5, 1.0, None, True), (0.0, 0.5, 1.0, None, False),
     ]
+    # rejection of a non-positive duration / hop holds for every clip: empty, shorter than a window, far along the recording
+    for s_, e_ in [(2.0, 2.0), (0.0, 0.0), (7.25, 7.5), (500.0, 510.0)]:
+        for d_, h_ in [(0.0, None), (-1.0, None), (1.0, 0.0), (1.0, -0.5), (0.0, 0.0), (1.0, 0), (0, 1.0)]:
+            for inc_ in (False, True):
+                directed.append((s_, e_, d_, h_, inc_))
     for s, e, d, h, inc in directed:
         ctx.case(("directed",) + (_cls(e - s, d, h if h else d, inc) if d > 0 and (h is None or h > 0) else ("reject",)),
                  {"start": s, "end": e, "duration": d, "hop": h, "inc": inc})
